@@ -1333,6 +1333,9 @@ fn oracle_c03(t: &WorldTrace, obs: &[Obs], stats: &mut Stats) -> Vec<Violation> 
 // Execution
 
 pub fn execute(t: &WorldTrace, stats: &mut Stats) -> RunReport {
+    // a clean machine at the start of the run; what a simulated process leaves in the temporary
+    // directory is there for the next variant (the next invocation on the same machine)
+    crate::seam::reset_sim_tmp();
     let mut obs = vec![];
     for v in &t.variants {
         let o = exec_variant(&t.world, v);
